@@ -1,6 +1,7 @@
 package expr
 
 import (
+	"errors"
 	"fmt"
 	"math"
 	"strconv"
@@ -433,7 +434,34 @@ func evaluateFunctionValue(node *ExprNode, data map[string]any) (any, error) {
 	}
 
 	// Execute function
-	return fn.Execute(ctx, args)
+	result, err := fn.Execute(ctx, args)
+	if err != nil {
+		for _, arg := range args {
+			if arg == nil {
+				return nil, &nullArgumentError{err: err}
+			}
+		}
+		return nil, err
+	}
+	return result, nil
+}
+
+// nullArgumentError reports that a function failed on a NULL argument. The
+// failure is an error for a value, but a condition built on it is merely not
+// true (see the CASE WHEN evaluation).
+type nullArgumentError struct {
+	err error
+}
+
+func (e *nullArgumentError) Error() string { return e.err.Error() }
+
+func (e *nullArgumentError) Unwrap() error { return e.err }
+
+// isNullArgumentError reports whether err stems from a function that failed on
+// a NULL argument.
+func isNullArgumentError(err error) bool {
+	var nullErr *nullArgumentError
+	return errors.As(err, &nullErr)
 }
 
 // compareValues compares two values
